@@ -131,4 +131,7 @@ def replay_mc(case):
     if isinstance(F, list):
         F = [set(eval(x) for x in P) if isinstance(P, list) else eval(P)
              for P in F]
-    return mc(K, f, F=F)
+    try:
+        return mc(K, f, F=F)
+    except Exception:
+        return None       # the call's outcome is judged by the monitors
